@@ -137,7 +137,31 @@ def letters_for(spec, depthkind):
     for n in orders[:2]:
         L.append((2, (last, 0) + n))
         L.append((0, (last, last) + n))
+    # multi-element requests: lists paired across dimensions (numpy semantics: elementwise, not an outer
+    # product), a slice of blocks, a slice of orders.  Tuples inside an index stand for lists.
+    if k == 1:
+        L.append((0, ((0, last), (0, last), 2)))
+        L.append((1, (0, slice(None), (2, 1))))
+        L.append((0, (0, 0, slice(0, 3))))
+    else:
+        L.append((0, (0, 0, (0, 2), (2, 0))))
+        L.append((1, ((0, 0), (0, last), (1, 0), (0, 2))))
+        L.append((0, (0, 0, slice(0, 2), 1)))
     return L
+
+
+def as_index(idx):
+    return tuple(list(x) if isinstance(x, tuple) else x for x in idx)
+
+
+def requested_orders(idx, nb, k, bound=6):
+    """Multi-orders selected by an index expression, from numpy on a grid of index tuples."""
+    grid = np.empty((nb, nb) + (bound,) * k, dtype=object)
+    for t in itertools.product(*(range(d) for d in grid.shape)):
+        grid[t] = t
+    sel = grid[as_index(idx)]
+    sel = [sel] if isinstance(sel, tuple) else list(sel.ravel())
+    return sorted({t[-k:] for t in sel})
 
 
 def cases(tier, seed):
@@ -269,7 +293,9 @@ def run_case(case):
     fresh = {}
     for l in letters:
         w = build()
-        fresh[l] = fingerprint(w.outs[l[0]][l[1]])
+        fresh[l] = fingerprint(w.outs[l[0]][as_index(l[1])])
+        if any(not isinstance(x, int) for x in l[1]):
+            continue  # the differential oracle is applied to the single-element requests
         n = l[1][-k:]
         wt = LazyWorld(spec, bump_not_leq=n)
         alt = fingerprint(wt.outs[l[0]][l[1]])
@@ -279,15 +305,18 @@ def run_case(case):
 
     def request(world, letter):
         world._loglen = len(world.log)
-        return fingerprint(world.outs[letter[0]][letter[1]])
+        return fingerprint(world.outs[letter[0]][as_index(letter[1])])
+
+    nb_out = w0.outs[0].shape[0]
+    wanted = {l: requested_orders(l[1], nb_out, k) for l in letters}
 
     def invariant(world, hist, letter, obs):
         out = []
-        n = letter[1][-k:]
+        ns = wanted[letter]
         new = world.log[world._loglen :]
         for idx in new:
-            if not leq(idx[-k:], n):
-                out.append(f"request at order {list(n)} evaluated Hamiltonian term {list(idx)} (not <= n)")
+            if not any(leq(idx[-k:], n) for n in ns):
+                out.append(f"request at orders {[list(n) for n in ns]} evaluated Hamiltonian term {list(idx)} (not <= any requested order)")
         if len(set(world.log)) != len(world.log):
             dup = [i for i in set(world.log) if world.log.count(i) > 1][:2]
             out.append(f"Hamiltonian term evaluated more than once: {dup}")
